@@ -129,7 +129,7 @@ pub fn run(tier: Tier, seed: u64) -> Report {
     let r = run_pbt(
         "cells",
         seed,
-        tier.pick(6_000, 200_000),
+        tier.pick(30_000, 800_000),
         || {
             (picks(0, 29, 4), proptest::collection::vec((0u8..3, 0u8..5, 0.0f64..1.0, 0.0f64..1.0, [0.0f64..1.0, 0.0f64..1.0, 0.0f64..1.0, 0.0f64..1.0, 0.0f64..1.0]), 4..=4))
                 .prop_map(|(pick, points)| Case { pick, points })
